@@ -12,7 +12,7 @@ func baseWeights() map[string]int {
 		"burn_regen": 2, "unimplemented": 1, "bank_send": 8,
 		"basket_create": 4, "put": 14, "take": 12, "basket_fee": 2, "update_curator": 2, "update_date_criteria": 3,
 		"sell": 14, "update_sell": 10, "cancel_sell": 5, "buy": 16, "basket_token_market": 4, "allowed_denom": 3, "fee_params": 3, "fee_pool_send": 3,
-		"anchor": 3, "attest": 3, "define_resolver": 2, "register_resolver": 3, "resolver_combo": 1, "class_combo": 1, "batch_combo": 2, "market_combo": 2,
+		"anchor": 3, "attest": 3, "define_resolver": 2, "register_resolver": 3, "resolver_combo": 1, "class_combo": 1, "batch_combo": 2, "market_combo": 2, "prefix_project": 1,
 	}
 }
 
@@ -56,7 +56,7 @@ func ProfileFor(prop string) Profile {
 	case "C14", "C17":
 		p := tilt("creation-heavy", map[string]int{"create_class": 6, "create_project": 8, "create_batch": 5, "bridge_receive": 3, "add_credit_type": 5, "basket_create": 3,
 			// messages that delete or re-key parent rows while children exist (references must keep resolving)
-			"allowed_denom": 4, "bridge_chain": 2, "update_class_issuers": 2, "class_creator": 2})
+			"allowed_denom": 4, "bridge_chain": 2, "update_class_issuers": 2, "class_creator": 2, "prefix_project": 6})
 		p.MaxClasses, p.MaxProjects, p.MaxBatches, p.MaxBaskets = 130, 260, 320, 30
 		return p
 	case "C16":
